@@ -750,6 +750,14 @@ class Explorer:
     def default_call_value(self, c, argv):
         n = c.name
         if n.endswith("::Try>::branch") or c.declared == "std::ops::Try::branch":
+            a0 = argv[0]
+            # `?` on a value whose variant is known (it came out of an inlined helper): no fork
+            if a0[0] == "agg" and a0[2] in ("Ok", "Some") and len(a0[3]) == 1:
+                return ("agg", "adt", "Continue", (a0[3][0],))
+            if a0[0] == "agg" and a0[2] in ("Err", "None"):
+                return ("agg", "adt", "Break", (a0,))
+            if a0[0] == "atom" and a0[1].startswith("residual("):
+                return ("agg", "adt", "Break", (a0,))
             return ("atom", "try(%s)" % vkey(argv[0]))
         if c.declared == "std::ops::FromResidual::from_residual":
             return ("atom", "residual(%s)" % vkey(argv[0]))
@@ -758,6 +766,11 @@ class Explorer:
             return ("atom", "%s" % vkey(argv[0])) if argv[0][0] == "atom" else ("atom", "deref(%s)" % vkey(argv[0]))
         if c.declared == "std::ops::Not::not" and argv:
             return self.neg(argv[0])
+        if argv and ("From<bool> for " in n and n.endswith("::from")):
+            # i32::from(b) / usize::from(b): 0 or 1
+            if argv[0][0] == "k" and isinstance(argv[0][1], bool):
+                return ("k", int(argv[0][1]))
+            return ("atom", "frombool(%s)" % vkey(argv[0]))
         if n.startswith("std::boxed::Box::<T>::new") and c.ga:
             return ("atom", "box<%s>(%s)" % (c.ga[0], ",".join(vkey(a) for a in argv)))
         if self.pure(c):
